@@ -304,8 +304,11 @@ func (x *world) buildRequest(rng *rand.Rand, c *Conc, cs *Case) (string, proto.M
 	// endpoints the specification asks without a window: the part of the day all cases live in
 	dayS, dayE := (day0+35000)*1000, (day0+58000)*1000
 	var matchers []string
-	if len(r.Sel) > 0 || rng.Intn(2) == 0 {
-		matchers = []string{selector(rng, c, r.Sel)}
+	for _, m := range r.Sels {
+		matchers = append(matchers, selector(rng, c, m))
+	}
+	if len(r.Sels) == 0 && rng.Intn(2) == 0 {
+		matchers = []string{"{}"} // a matcher without selectors is no matcher
 	}
 	switch r.Ep {
 	case "SelectSeries":
@@ -632,6 +635,27 @@ func (x *world) dialectProbe(ep string, reqMsg proto.Message) {
 	}()
 	x.w.Bridge.Drain()
 	x.res.Aux["canonical_protojson_request"] = map[string]interface{}{"endpoint": ep, "body": string(body), "status": status, "answer": clip(resp, 300)}
+	// error path: the database fails the statement of LabelNames / LabelValues
+	probe := map[string]interface{}{}
+	for _, e := range []struct {
+		ep  string
+		msg proto.Message
+	}{{"LabelNames", &v1.LabelNamesRequest{Start: (day0 + 35000) * 1000, End: (day0 + 58000) * 1000}},
+		{"LabelValues", &v1.LabelValuesRequest{Name: "service_name", Start: (day0 + 35000) * 1000, End: (day0 + 58000) * 1000}}} {
+		b, _ := json.Marshal(e.msg)
+		rq := httptest.NewRequest("POST", base+e.ep, bytes.NewReader(b))
+		rq.Header.Set("Content-Type", "application/json")
+		x.failNext = true
+		st, body := -1, ""
+		func() {
+			defer func() { recover() }()
+			st, body = x.w.Do(rq)
+		}()
+		x.failNext = false
+		x.w.Bridge.Drain()
+		probe[e.ep] = map[string]interface{}{"status": st, "answer": clip(body, 200)}
+	}
+	x.res.Aux["database_error_during_the_statement"] = probe
 }
 
 func (x *world) runCase(rng *rand.Rand, c *Conc, cs *Case) {
@@ -665,6 +689,16 @@ func (x *world) runCase(rng *rand.Rand, c *Conc, cs *Case) {
 		return
 	}
 	x.classes(cs, def)
+	if ss, ok := o.Canon.([]nSeries); ok && ep == "SelectSeries" {
+		start := c.tickMs(cs.Req.S)
+		for _, e := range ss {
+			for _, p := range e.Points {
+				if ts, _ := strconv.ParseInt(p[0], 10, 64); ts < start {
+					x.res.Classes["select_series_point_stamped_before_start"]++
+				}
+			}
+		}
+	}
 	for _, q := range cs.Fired {
 		x.res.FiredCases[q]++
 	}
@@ -848,11 +882,18 @@ func (x *world) classes(cs *Case, def *specAnswer) {
 		if len(r.Ln) > 0 {
 			cl["series_with_label_names"]++
 		}
-		if len(r.Sel) > 0 {
+		if len(r.Sels) > 0 {
 			cl["series_with_matcher"]++
 		}
+		if len(r.Sels) > 1 {
+			cl["series_with_two_matchers"]++
+		}
+	case "LabelNames", "LabelValues":
+		if len(r.Sels) > 1 {
+			cl["label_names_or_values_with_two_matchers"]++
+		}
 	}
-	if len(r.Sel) > 0 {
+	if len(r.Sel) > 0 || len(r.Sels) > 0 {
 		cl["request_with_equality_selector"]++
 	}
 	if len(cs.Fired) > 0 {
